@@ -2,8 +2,8 @@ SPECIFICATION Spec
 CONSTANTS
   Threads = {a, b, c}
   MaxCommits = 4
-  Serialize = FALSE
-  Callbacks = FALSE
-INVARIANTS TypeOK NeverMovesBack ReloadIsFresh
+  Serialize = TRUE
+  Callbacks = TRUE
+INVARIANTS FreshAtRest TypeOK NeverMovesBack ReloadIsFresh
 PROPERTIES PublishedMonotone
 CHECK_DEADLOCK FALSE
